@@ -372,6 +372,13 @@ def runOp (s : Sexp) : String :=
       let r := readVarUint (a ++ t)
       s!"{hexOf a} {sizeVarUint v} {r.1} {r.2}"
     | _, _ => "bad-op"
+  | .list [.atom "varucap", .atom n, .atom pre, .atom _spare] =>
+    match n.toNat?, pre.toNat? with
+    | some v, some p =>
+      let prefix_ : Bytes := (List.range p).map fun i => (0xA0 + i).toUInt8
+      let sv : Int := wrapS 64 v
+      s!"{hexOf (prefix_ ++ appendVarUint v)} {hexOf (prefix_ ++ appendVarInt sv)} {hexOf (prefix_ ++ appendVarUint (((v / 8) % 2^60) * 8 + v % 8))}"
+    | _, _ => "bad-op"
   | .list [.atom "vari", .atom n, .atom trail] =>
     match n.toInt?, parseHex trail with
     | some v, some t =>
